@@ -81,19 +81,51 @@ func init() {
 				}
 				info := f.Pkg.TypesInfo
 				fl := p.Flow(f)
+				// the raise written out in place: assignments to Uncertain inside a range whose body tests FeatureFilterData
+				inline := map[ast.Node]bool{}
+				inspectShallow(f.Body(), func(x ast.Node) bool {
+					rs, ok := x.(*ast.RangeStmt)
+					if !ok {
+						return true
+					}
+					testsData := false
+					var asg []ast.Node
+					ast.Inspect(rs.Body, func(y ast.Node) bool {
+						switch s := y.(type) {
+						case *ast.SelectorExpr:
+							if s.Sel.Name == "FeatureFilterData" {
+								testsData = true
+							}
+						case *ast.Ident:
+							if s.Name == "FeatureFilterData" {
+								testsData = true
+							}
+						case *ast.AssignStmt:
+							for _, l := range s.Lhs {
+								if isFieldOf(info, l, unc) {
+									asg = append(asg, s)
+								}
+							}
+						}
+						return true
+					})
+					if testsData {
+						for _, a := range asg {
+							inline[a] = true
+						}
+						// a loop over no tags at all raises nothing, which is right: the loop itself counts
+						inline[rs.X] = true
+					}
+					return true
+				})
 				raises := func(nd ast.Node) bool {
-					hit := fl.hasCall(nd, func(c *ast.CallExpr) bool {
+					if inline[nd] {
+						return true
+					}
+					return fl.hasCall(nd, func(c *ast.CallExpr) bool {
 						fn := p.Callee(f.Pkg, c)
 						return fn != nil && raisers[fn]
 					})
-					if hit {
-						return true
-					}
-					// the raise written out in place (the converter job's completion)
-					if rs, ok := nd.(*ast.RangeStmt); ok {
-						_ = rs
-					}
-					return false
 				}
 				inspectParents(f.Body(), func(x ast.Node, parents []ast.Node) bool {
 					c, ok := x.(*ast.CallExpr)
